@@ -364,7 +364,7 @@ def conds(tier):
     t = (lambda x, y: x) if q else (lambda x, y: y)
     M = "harness.c06"
     sb = "shape-bounded"
-    tb = "%d first-parameter kinds (value / reference / shared / raw pointer / enum / Vector / Matrix / string; further parameters derived)%s" % (NP, " x 2 type rows x all return shapes" if not q else "; return shape derived")
+    tb = "%d first-parameter kinds (value / reference / shared / raw pointer / enum / Vector / Matrix / string; further parameters derived)%s" % (NP, " x 2 type rows x 4 return-shape offsets" if not q else "; return shape derived")
     return [
         xh.Cond(M, "c06_expand", t(200, 900), examples=["n=3, mask=6", "n=3, mask=2", "n=0, mask=0"], bounds="0-5 parameters, all 32 default masks (legal and illegal)"),
         xh.Cond(M, "c06_ctor", t(420, 3000), path_timeout=60, kind=sb, examples=["n=2, k=1, t0=7, t1=0", "n=4, k=4, t0=0, t1=1"], bounds="constructors: 0-4 parameters, every default count, " + tb),
